@@ -60,7 +60,7 @@ func (a *Adv) soupDependent() bool {
 	if a.e.Cfg.Eager {
 		return true
 	}
-	for _, p := range []string{"XT", "VC", "NV", "NVW", "NVH", "NVN"} {
+	for _, p := range []string{"XT", "VC", "NV", "NVW", "NVH", "NVN", "NVM"} {
 		if a.on(p) {
 			return true
 		}
@@ -337,7 +337,7 @@ func (a *Adv) build(soup []Sent, t *LState) []int {
 		}
 	}
 	var proofs []proofSrc
-	if a.on("VC") || a.on("NV") || a.on("NVW") || a.on("NVH") || a.on("NVN") {
+	if a.on("VC") || a.on("NV") || a.on("NVW") || a.on("NVH") || a.on("NVN") || a.on("NVM") {
 		proofs = a.proofs(soup, h)
 	}
 	// ---- VC to the target as leader
@@ -369,7 +369,7 @@ func (a *Adv) build(soup []Sent, t *LState) []int {
 		}
 	}
 	// ---- NEW_VIEW in views the adversary leads
-	if a.on("NV") || a.on("NVF") || a.on("NVW") || a.on("NVH") || a.on("NVN") {
+	if a.on("NV") || a.on("NVF") || a.on("NVW") || a.on("NVH") || a.on("NVN") || a.on("NVM") {
 		for v := uint64(1); v <= e.Cfg.MaxView; v++ {
 			if v < t.View {
 				continue
@@ -484,6 +484,37 @@ func (a *Adv) newViews(soup []Sent, t *LState, b primitives.MemberId, v uint64, 
 			}
 		}
 	}
+	if a.on("NVM") {
+		// mixed proof: the adversary led an earlier view pv, re-signs the PREPREPARE part for block Z (alphabet[0])
+		// and keeps the genuine PREPARE part of what correct members prepared in pv; proposes Z "locked" on it
+		z := a.blockFor(h, e.Cfg.Alphabet[0])
+		for k := range proofs {
+			p := &proofs[k]
+			if p.view >= v || r.Leader(p.view) != string(p.ppm.Content().Sender().MemberId()) || !a.owns(p.ppm.Content().Sender().MemberId()) || p.hash == fmt.Sprintf("%x", []byte(kit.HashOf(z))) {
+				continue
+			}
+			pr := proofT{Present: true,
+				PP:       brefT{protocol.LEAN_HELIX_PREPREPARE, kit.Instance, H, primitives.View(p.view), kit.HashOf(z)},
+				P:        brefT{protocol.LEAN_HELIX_PREPARE, kit.Instance, H, primitives.View(p.view), hexb(p.hash)},
+				PPSender: signerT{ID: p.ppm.Content().Sender().MemberId(), Mode: "valid"}}
+			for _, pm := range p.preps {
+				pr.PSenders = append(pr.PSenders, signerT{ID: pm.Content().Sender().MemberId(), Mode: "replay", Sig: pm.Content().Sender().Signature()})
+			}
+			me := signerT{ID: b, Mode: "valid"}
+			votes := []voteT{{T: protocol.LEAN_HELIX_VIEW_CHANGE, I: kit.Instance, H: H, V: V, Proof: pr, S: me}}
+			ids := map[string]bool{string(b): true}
+			for _, c := range pool {
+				if c.pv < 0 && !ids[c.id] {
+					ids[c.id] = true
+					votes = append(votes, voteT{T: protocol.LEAN_HELIX_VIEW_CHANGE, I: kit.Instance, H: H, V: V, S: signerT{ID: primitives.MemberId(c.id), Mode: "replay", Sig: c.vcm.Content().Sender().Signature()}})
+				}
+			}
+			if r.IsQuorum(ids) {
+				addRaw(mkNV(nvT{T: protocol.LEAN_HELIX_NEW_VIEW, I: kit.Instance, H: H, V: V, Votes: votes, S: me,
+					PP: brefT{protocol.LEAN_HELIX_PREPREPARE, kit.Instance, H, V, kit.HashOf(z)}, PPS: me}, z), "NVM")
+			}
+		}
+	}
 	if a.on("NVF") {
 		// votes attributed to honest members under signatures the adversary cannot produce
 		var confs []*protocol.ViewChangeMessageContentBuilder
@@ -508,4 +539,13 @@ func (a *Adv) newViews(soup []Sent, t *LState, b primitives.MemberId, v uint64, 
 			add(f.CreateNewViewMessage(H, V, ppb, confs, x), "NVF")
 		}
 	}
+}
+
+func (a *Adv) owns(id primitives.MemberId) bool {
+	for _, b := range a.byz {
+		if string(b) == string(id) {
+			return true
+		}
+	}
+	return false
 }
